@@ -322,3 +322,18 @@ rule('C15.16')(c13.register_stores)
 rule('C20.25')(c08.shape_dispatch)              # Fill builds its containers per evaluation, empty ones too
 rule('C13.20')(c06.lookup_is_read_only)
 rule('C20.26')(c06.lookup_is_read_only)
+
+# round-9 seeds: clauses first reported under a sibling property
+rule('C02.17')(c20.default_scope_only_read)     # an argument's frame bookkeeping stays in its own child map
+rule('C06.20')(c13.isolation)                   # each Glommer's registrations are its own
+rule('C08.21')(c07.nested_evaluation_carries_scope)   # a stage's key spec runs in the mode and scope of the Iter it belongs to
+rule('C08.22')(c11.same_object)                 # assign() hands its value over in argument position
+rule('C10.18')(c03.order)                       # Or tries its children by position
+rule('C10.19')(c09.results)                     # M(T-expression) answers with the target
+rule('C11.24')(c01.default_accessors)           # OrderedDict children are listed by its own keys()
+rule('C14.19')(c02.exhaustiveness)              # every wildcard producer records its step
+rule('C14.20')(c20.default_scope_only_read)     # wildcards ask the registry of the running call
+rule('C15.17')(c13.exact_before_fuzzy)          # an exact iterate=False registration is final
+rule('C01.19')(c15.text_is_not_iterable)        # inherited __iter__ makes a container subclass reach its base's accessors
+rule('C04.26')(c10.defaults)                    # a default replaces a failed *condition*, not a failing sub-spec
+rule('C12.21')(c13.tree_structure)              # re-parenting keeps the siblings' order
